@@ -1803,7 +1803,7 @@ fn run_shell_case(tag: &str, script: &str) {
 /// (tag, script template); `%` is replaced by a per-instance suffix.  Tag `clean` = no catalogued
 /// divergence is involved.  Only built-ins of the real binary are used (`alias` without aliases is
 /// the do-nothing regular built-in, `typeset -p` the printer).
-const FRAGMENTS: [(&str, &str); 68] = [
+const FRAGMENTS: [(&str, &str); 75] = [
     ("clean", "x%=one; typeset -p x% >o%; x%=two; typeset -p x% >o%; read -r l <o%; typeset -p l"),
     ("clean", "x%=ap; typeset -p x% >>a%; x%=bp; typeset -p x% >>a%; umask >>a%"),
     ("clean", "set -C; alias >f1; s=$?; typeset -p s; typeset -p s >|f1; alias >n%; set +C; read -r l <f1; typeset -p l"),
@@ -1872,6 +1872,13 @@ const FRAGMENTS: [(&str, &str); 68] = [
     ("clean", "for i in d[12]/. d[12]/.. f*/.. d1/*/.. d1/g/.; do typeset -p i; done"),
     ("clean", "read -r a <d1/./g; read -r b <d1/dd/../g; read -r c <d2/../f1; typeset -p a b c; typeset -p a >>d1/dd/../g; read -r l <d1/g; typeset -p l"),
     ("clean", "(ulimit -n 4; alias <f1 >t%; s=$?; typeset -p s; alias <f1 >>f2 2>nf%; s=$?; typeset -p s); read -r l <f1; typeset -p l"),
+    ("clean", "trap 'tt%=got; typeset -p tt%' USR1; x%=$(kill -s USR1 $$; typeset -p PWD)$(typeset -p PWD); s=$?; typeset -p s x%; trap - USR1"),
+    ("clean", "trap 'tt%=got' USR2; (kill -s USR2 $$); (typeset -p PWD >ss%); s=$?; typeset -p s tt%; trap - USR2"),
+    ("clean", "trap 'u%=1' TERM; y%=$(kill $$; typeset -p PWD); typeset -p PWD | { read -r l; typeset -p l; }; s=$?; typeset -p s u% y%; trap - TERM"),
+    ("clean", "trap 'w%=1' USR1; kill -s USR1 $$; (typeset -p w%); z%=$(typeset -p w%); typeset -p z%; (kill -s USR1 $$; exit 5); s=$?; typeset -p s; trap - USR1"),
+    ("clean", "trap '' USR1; (kill -s USR1 $$; typeset -p PWD >ig%); s=$?; typeset -p s; x%=$(kill -s USR1 $$; typeset -p PWD)$(typeset -p PWD); typeset -p x%; trap - USR1"),
+    ("clean", "trap 'c%=chld' CHLD; (exit 2); (exit 3); s=$?; typeset -p s c%; trap - CHLD"),
+    ("clean", "trap 'a%=1' USR1; trap 'b%=1' USR2; x%=$(kill -s USR1 $$; kill -s USR2 $$; typeset -p PWD)$( (typeset -p PWD) )$(typeset -p PWD | { read -r l; typeset -p l; }); s=$?; typeset -p s a% b% x%; trap - USR1 USR2"),
 ];
 
 fn gen_script(rng: &mut Rng, allow_known: bool) -> (String, String) {
@@ -1913,8 +1920,12 @@ fn run_case(case: &str) {
         run_shell_case(tag, &script);
     } else if case.starts_with("P ") {
         run_proc_case(case);
-    } else {
+    } else if case.starts_with("S ") {
         run_seq_case(case);
+    } else {
+        // not a case of this harness (e.g. a shrinking attempt that dropped the header): same answer as the
+        // Lean driver gives
+        emit(case, "?", "-");
     }
 }
 
